@@ -230,6 +230,28 @@ def rule_r5(ctx, rep):
         if not ok:
             rep.add("R5", fi.qname, sval, f"the constructor stores `{norm(ival)}` but the {prop} setter stores `{norm(sval)}`: a value that only the "
                     f"constructor can produce does not survive save/load (the loader restores through the setter)", fi.loc())
+    # a node built with explicit values keeps them: a constructor argument that initialises a serialised field is re-bound
+    # only to supply the default for None (the loader passes the saved id to the constructor)
+    from ..condeval import enclosing_ifs
+    from ..layout import init_param_fields
+    ipf = init_param_fields(ctx)
+    for n in ast.walk(init.node):
+        if isinstance(n, (ast.Assign, ast.AugAssign)):
+            for t in (n.targets if isinstance(n, ast.Assign) else [n.target]):
+                if isinstance(t, ast.Name) and t.id in ipf:
+                    pname = t.id
+                    defaulting = False
+                    for (g, side) in enclosing_ifs(init, n):
+                        tt = g.test
+                        if isinstance(tt, ast.Compare) and len(tt.ops) == 1 and isinstance(tt.left, ast.Name) and tt.left.id == pname \
+                                and isinstance(tt.comparators[0], ast.Constant) and tt.comparators[0].value is None:
+                            if (isinstance(tt.ops[0], ast.Is) and side) or (isinstance(tt.ops[0], ast.IsNot) and not side):
+                                defaulting = True
+                    rep.count("constructor argument re-bindings")
+                    rep.oblige(("R5", "rebind", pname, norm(n)[:40]), defaulting)
+                    if not defaulting:
+                        rep.add("R5", init.qname, n, f"the constructor re-binds its `{pname}` argument although one was given: a node loaded with its "
+                                f"saved {ipf[pname][1:]} does not get it back (save/load no longer restores {ipf[pname]})", init.loc(n))
     rep.floor("constructor/setter pairs", 3)
 
 
